@@ -479,6 +479,264 @@ def check_hash_compat(ck, hashes_str):
     return
 
 
+
+# ----------------------------------------------------------------------------- Lua-level scripts
+def lua_val(tok):
+    if tok == "n":
+        return "nil"
+    if tok[0] == "b":
+        return "true" if tok == "b1" else "false"
+    if tok[0] == "i":
+        n = tok_to_int(tok)
+        return "math.mininteger" if n == -2 ** 63 else str(n)
+    if tok[0] == "f":
+        x = struct.unpack(">d", struct.pack(">Q", int(tok[1:], 16)))[0]
+        if x != x:
+            return "(0/0)"
+        if x == float("inf"):
+            return "math.huge"
+        if x == float("-inf"):
+            return "(-math.huge)"
+        return "(" + x.hex() + ")"
+    if tok[0] == "s":
+        b = b"" if tok == "s-" else bytes.fromhex(tok[1:])
+        return '"' + "".join("\\x%02x" % c for c in b) + '"'
+    raise ValueError(tok)
+
+
+def canon_to_tok(c):
+    """hx.Canon value -> token of this check"""
+    if c[0] == "i":
+        return itok(int(c[1:]))
+    return c
+
+
+LUA_PRELUDE = """local t = setmetatable({}, {
+  __newindex = function(t, k, v) emit("nidx", k); rawset(t, k, v) end,
+  __index = function(t, k) emit("idx", k); return nil end })
+"""
+
+
+def lua_render(ops):
+    out = [LUA_PRELUDE]
+    for op in ops:
+        f = op.split()
+        if f[0] == "S":
+            out.append("rawset(t, %s, %s)" % (lua_val(f[1]), lua_val(f[2])) if f[2] != "n" else "rawset(t, %s, nil)" % lua_val(f[1]))
+        elif f[0] == "A":
+            out.append("t[%s] = %s; emit('A')" % (lua_val(f[1]), lua_val(f[2])))
+        elif f[0] == "G":
+            out.append("emit('G', rawget(t, %s))" % lua_val(f[1]))
+        elif f[0] == "I":
+            out.append("do local v = t[%s]; emit('I', v) end" % lua_val(f[1]))
+        elif f[0] == "L":
+            out.append("emit('L', #t)")
+        elif f[0] == "W":
+            m, p, q, fresh, cap = walk_params(op)
+            out.append("do local j = 0; local ok, err = pcall(function() for k, v in pairs(t) do emit('v', k, v); "
+                       "local a = (j * %d + %d) %% %d; if a == 0 then t[k] = nil elseif a == 1 then t[k] = %d + j "
+                       "elseif a == 2 then rawset(t, k, %d + j) end; j = j + 1; if j >= %d then error('cap') end end end); "
+                       "emit('W', ok) end" % (p, q, m, fresh, fresh, cap))
+    return "\n".join(out)
+
+
+def gen_lua_history(rng):
+    n = 1 + rng.below(30) if rng.chance(3, 4) else 20 + rng.below(120)
+    pool = [k for k in gen_pool(rng, n, False) if k[0] in "ifsb" and not (k[0] == "f" and "7ff" in k[:4])]
+    if not pool:
+        pool = ["i1"]
+    ops, ctr = [], 0
+    for _ in range(int(len(pool) * 2.5) + 6):
+        ctr += 1
+        c = rng.below(100)
+        k = rng.choice(pool)
+        v = rng.choice([itok(1000 + ctr), itok(1000 + ctr), "b0", stok(b"v%d" % ctr), ftok(ctr + 0.5)])
+        if c < 25:
+            ops.append("S %s %s" % (k, v))
+        elif c < 50:
+            ops.append("A %s %s" % (k, v))
+        elif c < 60:
+            ops.append(("A %s n" if rng.chance(1, 2) else "S %s n") % k)
+        elif c < 72:
+            ops.append("G %s" % k)
+        elif c < 84:
+            ops.append("I %s" % k)
+        elif c < 92:
+            ops.append("L")
+        else:
+            m = rng.choice([1, 2, 3, 4, 100])
+            ops.append("W %x %x %x %x %x" % (m, rng.below(m + 1), rng.below(4), 100000 * (1 + len(ops)), 2 * len(pool) + 20))
+    ops.append("W 7 0 5 0 %x" % (2 * len(pool) + 20))
+    ops.append("L")
+    return ops
+
+
+def check_lua(ops, events, status):
+    """events of the Lua run against the abstract map; returns (sops, checker) — two passes like to_sops/check_s"""
+    sops, expect = [], []           # expect[i] = (kind, payload) for sops[i]
+    ev = list(events)
+    pos = 0
+    fails = []
+
+    def take():
+        nonlocal pos
+        if pos < len(ev):
+            pos += 1
+            return ev[pos - 1]
+        return None
+    for oi, op in enumerate(ops):
+        f = op.split()
+        if f[0] == "S":
+            sops.append(op)
+            expect.append(("none", oi, None))
+        elif f[0] == "A":
+            e = take()
+            consulted = False
+            if e is not None and e[0] == "s" + b"nidx".hex():
+                consulted = True
+                e = take()
+            if e is None or e[0] != "s" + b"A".hex():
+                fails.append((oi, "event stream out of step at %s" % op))
+                break
+            sops.append("A %s %s" % (f[1], f[2]))
+            expect.append(("consulted", oi, consulted))
+        elif f[0] == "G":
+            e = take()
+            if e is None or e[0] != "s" + b"G".hex():
+                fails.append((oi, "event stream out of step at %s" % op))
+                break
+            sops.append(op)
+            expect.append(("value", oi, canon_to_tok(e[1]) if len(e) > 1 else "n"))
+        elif f[0] == "I":
+            e = take()
+            consulted = False
+            if e is not None and e[0] == "s" + b"idx".hex():
+                consulted = True
+                e = take()
+            if e is None or e[0] != "s" + b"I".hex():
+                fails.append((oi, "event stream out of step at %s" % op))
+                break
+            sops.append(op)
+            expect.append(("index", oi, (canon_to_tok(e[1]) if len(e) > 1 else "n", consulted)))
+        elif f[0] == "L":
+            e = take()
+            if e is None or e[0] != "s" + b"L".hex():
+                fails.append((oi, "event stream out of step at %s" % op))
+                break
+            sops.append("L")
+            expect.append(("len", oi, canon_to_tok(e[1])[1:]))
+        elif f[0] == "W":
+            m, p, q, fresh, cap = walk_params(op)
+            vis = []
+            while True:
+                e = take()
+                if e is None:
+                    fails.append((oi, "event stream ended inside a traversal"))
+                    break
+                if e[0] == "s" + b"v".hex():
+                    vis.append((canon_to_tok(e[1]), canon_to_tok(e[2])))
+                    continue
+                if e[0] in ("s" + b"nidx".hex(), "s" + b"idx".hex()):
+                    fails.append((oi, "metamethod consulted for an existing field during traversal"))
+                    continue
+                break
+            if e is None:
+                break
+            ok = len(e) > 1 and e[1] == "b1"
+            sops.append("T")
+            expect.append(("walk", oi, (vis, ok)))
+            for j, (k, _v) in enumerate(vis):
+                a = (j * p + q) % m
+                if a == 0:
+                    sops.append("R %s n" % k)
+                    expect.append(("none", oi, None))
+                elif a == 1:
+                    sops.append("R %s %s" % (k, itok(fresh + j)))
+                    expect.append(("none", oi, None))
+                elif a == 2:
+                    sops.append("S %s %s" % (k, itok(fresh + j)))
+                    expect.append(("none", oi, None))
+    return sops, expect, fails
+
+
+def lua_compare(expect, sres):
+    fails = []
+    for (kind, oi, pay), r in zip(expect, sres):
+        if kind == "consulted":
+            if (r == "b1") != pay:
+                fails.append((oi, "__newindex %s although the raw key is %s" % ("consulted" if pay else "not consulted", "absent" if r == "b1" else "present")))
+        elif kind == "value":
+            if r != pay:
+                fails.append((oi, "rawget returned %s, map has %s" % (pay, r)))
+        elif kind == "index":
+            v, c = r.split(",")
+            if pay[1] != (c == "b1"):
+                fails.append((oi, "__index %s although the raw key is %s" % ("consulted" if pay[1] else "not consulted", "absent" if c == "b1" else "present")))
+            elif not pay[1] and v != pay[0]:
+                fails.append((oi, "t[k] returned %s, map has %s" % (pay[0], v)))
+        elif kind == "len":
+            if pay not in r.split(","):
+                fails.append((oi, "# returned %s, borders are {%s}" % (pay, r)))
+        elif kind == "walk":
+            vis, ok = pay
+            want = sorted(split_pairs(r))
+            if not ok:
+                fails.append((oi, "pairs loop raised an error after %d keys (map has %d)" % (len(vis), len(want))))
+            elif sorted(vis) != want:
+                fails.append((oi, "pairs visited %d pairs, map has %d" % (len(vis), len(want))))
+    return fails
+
+
+def run_lua_level(ck, gvh, oracle, n):
+    hists = [gen_lua_history(ck.rng) for _ in range(n)]
+    lines = ["l%d %s" % (i, lua_render(ops).encode().hex()) for i, ops in enumerate(hists)]
+    outs = vlib.run_lines_resilient(gvh, ["lua"], lines, per_case_timeout=30)
+    slines, expects, pre = [], [], []
+    for i, ops in enumerate(hists):
+        f = outs[i].split(" ") if i < len(outs) else ["?", "CRASH"]
+        status = f[1]
+        tr = next((x[2:] for x in f if x.startswith("T:")), "-")
+        events = [] if tr == "-" else [e.split(",") for e in tr.split(";")]
+        sops, expect, fails = check_lua(ops, events, status)
+        if status != "ok":
+            fails.insert(0, (0, "script ended with status %s" % status))
+        slines.append("l%d S ; %s" % (i, " ; ".join(sops)))
+        expects.append(expect)
+        pre.append(fails)
+    rc, sout, err = vlib.run_lines(oracle, [], slines, timeout=900)
+    nfail = 0
+    for i, ops in enumerate(hists):
+        for o in ops:
+            ck.count("lua-op:" + o[0])
+        ck.case("lua " + " ; ".join(ops), nontrivial=len(ops) > 8)
+        sres = sout[i].split(" ", 1)[1].split("|") if i < len(sout) and " " in sout[i] else []
+        fails = pre[i] + lua_compare(expects[i], sres)
+        if fails:
+            nfail += 1
+            if nfail <= 3:
+                ck.violation("table property fails from Lua source: " + fails[0][1],
+                             {"kind": "Go!=S", "engine": "table/lua", "history": " ; ".join(ops), "lua": lua_render(ops)[:6000],
+                              "failures": [d for _, d in fails][:5], "impl": outs[i][:3000] if i < len(outs) else None})
+    ck.sample({"lua_script": lua_render(hists[0])[:700]})
+    return nfail
+
+
+def enum_histories():
+    """exhaustive small domain (thorough): every history of length <= 4 over an 8-key pool (set / clear of each key + Len),
+    and of length <= 6 over a 4-key pool, each followed by probes of every key, Len and a plain traversal"""
+    import itertools
+    pool8 = ["i1", "i2", "i3", "f4008000000000000", "i0", "s61", "s6162636465666768", "b1"]
+    pool4 = ["i1", "i2", "f4000000000000000", "s61"]
+    out = []
+    for pool, maxlen in ((pool8, 4), (pool4, 6)):
+        alpha = ["S %s i%x" % (k, 0x100 + j) for j, k in enumerate(pool)] + ["S %s n" % k for k in pool] + ["L"]
+        probe = ["G %s" % k for k in pool] + ["L", "W 7 0 5 0 20"]
+        for n in range(1, maxlen + 1):
+            for h in itertools.product(alpha, repeat=n):
+                out.append(list(h) + probe)
+    return out
+
+
 # ----------------------------------------------------------------------------- main
 def evaluate(ck, eng, hists, label, first_violation_only=True, max_report=3):
     """Run Go, IM, S on the histories; record distribution, violations and known findings.
@@ -609,7 +867,20 @@ def run(tier, seed):
         n_im += a
         n_s += s
         im_diffs += [(b + i, j) for i, j in d]
-    ck.log("Go!=IM %d, Go!=S (unexplained) %d" % (n_im, n_s))
+    if tier == "thorough":
+        eh = enum_histories()
+        ck.log("exhaustive small domain: %d histories" % len(eh))
+        for b in range(0, len(eh), 20000):
+            a, s2, d = evaluate(ck, eng, eh[b:b + 20000], "exhaustive small domain")
+            n_im += a
+            n_s += s2
+            im_diffs += [(len(hists) + b + i, j) for i, j in d]
+        hists = hists + eh
+        ck.cov["exhaustive_small_domain_histories"] = len(eh)
+    n_lua = run_lua_level(ck, gvh, oracle, int(os.environ.get("VERIF_C03_NLUA", 250 if tier == "quick" else 4000)))
+    n_s += n_lua
+    ck.cov["lua_level_failures"] = n_lua
+    ck.log("Go!=IM %d, Go!=S (unexplained) %d (of which Lua-level %d)" % (n_im, n_s, n_lua))
     for i in (0, len(corpus) + 1, len(hists) - 1):
         if 0 <= i < len(hists):
             ck.sample({"history": " ; ".join(hists[i])[:600]})
